@@ -35,13 +35,13 @@
 struct c19_session : public vsim_session {
   c19_session(std::ostream *o) : vsim_session(o) {}
 
+  static std::string us(std::string s) { std::replace(s.begin(), s.end(), ' ', ','); return s; }
   static std::string hexlist(std::vector<colvarvalue> const &v)
   {
     std::string s;
-    for (size_t i = 0; i < v.size(); i++) { if (i) s += ","; s += vs_hex(v[i]); }
+    for (size_t i = 0; i < v.size(); i++) { if (i) s += ";"; s += us(vs_hex(v[i])); }
     return s.size() ? s : "-";
   }
-  static std::string us(std::string s) { std::replace(s.begin(), s.end(), ' ', ','); return s; }
 
   bool exec_extra(std::string const &cmd, std::vector<std::string> const &a, std::istream &) override
   {
@@ -70,10 +70,10 @@ struct c19_session : public vsim_session {
         if (colvarbias_abmd *ab = dynamic_cast<colvarbias_abmd *>(b)) o << " bref=" << vs_hex(ab->ref_val);
         if (colvarbias_alb *al = dynamic_cast<colvarbias_alb *>(b)) {
           o << " bc=" << hexlist(al->colvar_centers) << " bcoup=";
-          for (size_t i = 0; i < al->current_coupling.size(); i++) { if (i) o << ","; o << vs_hex(al->current_coupling[i]); }
+          for (size_t i = 0; i < al->current_coupling.size(); i++) { if (i) o << ";"; o << vs_hex(al->current_coupling[i]); }
           o << " bgrad=";
           for (size_t i = 0; i < al->means.size(); i++) {
-            if (i) o << ",";
+            if (i) o << ";";
             o << vs_hex(-2.0 * (al->means[i] / (static_cast<cvm::real>(al->colvar_centers[i])) - 1) * al->ssd[i] / (fmax(al->update_calls, 2.0) - 1));
           }
         }
